@@ -183,6 +183,12 @@ impl<T, C: IsElement<T>> List<T, C> {
             // Set the Entry of the to-be-inserted element to point to the previous successor of
             // `to`.
             entry.next.store(next, Relaxed);
+            #[cfg(feature = "circ_verif")]
+            if crate::verif::buggify(crate::verif::fault::LIST_INSERT_CAS_WEAK) {
+                // Spurious failure of the weak CAS: re-read the successor and try again.
+                next = to.load(Relaxed, guard);
+                continue;
+            }
             match to.compare_exchange_weak(next, entry_ptr, Release, Relaxed, guard) {
                 Ok(_) => break,
                 // We lost the race or weak CAS failed spuriously. Update the successor and try
